@@ -172,8 +172,8 @@ def single_cases(rnd, n: int) -> list[tuple[str, dict]]:
 
 def run(tier: str, seed: int, rep: Report, model: Model) -> dict:
     rnd = rng_for("C12", seed)
-    n_hist = depth(tier, 200, 2000)
-    n_single = depth(tier, 400, 4000)
+    n_hist = depth(tier, 200, 6000)
+    n_single = depth(tier, 400, 12000)
     rep.rule = ("histories of 3-7 steps over one function with a provider (fresh or long-lived dict; values changed by rebinding or in place; "
                 "empty / unused / used-in-expression names) and single calls with self / bad providers; distinct = distinct history or case; "
                 "non-trivial = the provider value changes during the history (or the provider is self / bad)")
@@ -183,7 +183,7 @@ def run(tier: str, seed: int, rep: Report, model: Model) -> dict:
         if h:
             hists.append(h)
     singles = single_cases(rnd, n_single)
-    selfs = [gen_self_history(rnd) for _ in range(depth(tier, 150, 1500))]
+    selfs = [gen_self_history(rnd) for _ in range(depth(tier, 150, 5000))]
     rep.streams.update({"provider_histories": n_hist, "single_calls": len(singles), "self_instance_histories": len(selfs)})
     worker = ImplWorker("harness.props.c12")
     try:
